@@ -47,3 +47,42 @@ Theorem scoping_releases : scoping_releases_b = true.
 Proof. vm_compute. reflexivity. Qed.
 Theorem scoping_nonempty : scoping_nonempty_b = true.
 Proof. vm_compute. reflexivity. Qed.
+
+(* ---- what the closed await graph means (PEP 492: `await x` forwards everything x's iterator yields to the
+   event loop and everything the loop sends or throws back to x, unchanged) ----
+   A running library operation is a tree: inner nodes are library coroutines / generators / context managers
+   (sites classified Lib), leaves are user awaitables (sites classified User), each with the tokens it hands to
+   the event loop.  There is no third kind of node because [await_graph_closed] excludes Other. *)
+Close Scope string_scope.
+Open Scope list_scope.
+Inductive atree := AUser (tokens : list nat) | ALib (children : list atree).
+Fixpoint suspensions (t : atree) : list nat :=
+  match t with
+  | AUser l => l
+  | ALib cs => (fix go (cs : list atree) : list nat := match cs with [] => [] | c :: r => suspensions c ++ go r end) cs
+  end.
+Fixpoint user_leaves (t : atree) : list (list nat) :=
+  match t with
+  | AUser l => [l]
+  | ALib cs => (fix go (cs : list atree) : list (list nat) := match cs with [] => [] | c :: r => user_leaves c ++ go r end) cs
+  end.
+Lemma suspensions_concat : forall t, suspensions t = List.concat (user_leaves t).
+Proof.
+  fix IH 1. intros [l|cs]; cbn.
+  - rewrite app_nil_r. reflexivity.
+  - induction cs as [|c r IHr]; cbn; [reflexivity|]. rewrite IH, IHr, List.concat_app. reflexivity.
+Qed.
+(* every suspension of a library operation originates from a user awaitable, in order *)
+Theorem suspends_only_where_users_suspend : forall t tok,
+  In tok (suspensions t) -> exists l, In l (user_leaves t) /\ In tok l.
+Proof.
+  intros t tok H. rewrite suspensions_concat in H. apply in_concat in H.
+  destruct H as (l & Hl & Ht). exists l. split; assumption.
+Qed.
+(* with only synchronous arguments (no user awaitable suspends) the operation does not suspend at all *)
+Theorem sync_arguments_never_suspend : forall t,
+  (forall l, In l (user_leaves t) -> l = []) -> suspensions t = [].
+Proof.
+  intros t H. rewrite suspensions_concat. induction (user_leaves t) as [|l r IH]; cbn; [reflexivity|].
+  rewrite (H l (or_introl eq_refl)). cbn. apply IH. intros l' Hl'. apply H. right. assumption.
+Qed.
